@@ -56,7 +56,7 @@ def strategy(tier):
       (2, st.tuples(st.just('advance'), st.sampled_from([10, 500, 2000, 5000])).map(list)),
       (3, st.tuples(st.just('steady'), st.integers(1, 12), st.sampled_from([1, 2, 5]), st.sampled_from([35, 40, 60])).map(list)),
   ]
-  return st.fixed_dictionaries({'config': cfg, 'ops': sized_list(weighted(*pairs), 0, 40)})
+  return st.fixed_dictionaries({'config': cfg, 'ops': sized_list(weighted(*pairs), 0, 40 if tier == 'quick' else 70)})
 
 
 def execute(plan):
